@@ -10,7 +10,10 @@ theorem commit_created_fresh (H : Bytes → Bytes) (t : WT) (lvl : Int) (h : Byt
 
 theorem commit_oldRoot (H : Bytes → Bytes) (t : WT) (lvl : Int) : (commit H t lvl).1.oldRoot = t.oldRoot := by
   unfold commit
-  by_cases hd : t.root.dirty <;> simp [hd]
+  by_cases hd : t.root.dirty
+  · simp [hd]
+  · simp only [hd, Bool.not_false, if_true]
+    split <;> rfl
 
 theorem StoredAll.sub_get {H : Bytes → Bytes} {s : Store} {t x : PT} (h : StoredAll H s t) (hx : PT.Sub x t)
     (hn : x.isNone = false) : s.get (PT.hash H x) = some (Cbor.encBase (PT.persist H x)) := by
